@@ -1448,12 +1448,7 @@ class P(Prop):
         t2 = self.Track([], 1)
         for i in range(c[1]):
             t2.addObs(self.Obs(self.ENU(50.0 + i, 60.0 + 2 * i, 70.0 + 3 * i), self.ObsTime.readUnixTime(2000 + i)))
-        for op in c[2]:
-            try:
-                self.call(t2, op)
-            except BaseException as e:
-                if isinstance(e, KeyboardInterrupt):
-                    raise
+        self._t2_steps = self.run_ops(t2, c[2])
         self._t2 = t2
         return t + t2
 
@@ -1468,7 +1463,7 @@ class P(Prop):
             except BaseException as e:
                 if isinstance(e, KeyboardInterrupt):
                     raise
-                return {"pre": pre, "carry_err": self.err_of(e), "steps": []}
+                return {"pre": pre, "src_pre": src_pre, "carry_err": self.err_of(e), "steps": []}
             same = d is t
             src0 = self.observe(t)
             other0 = self.observe(self._t2) if self._t2 is not None else None
@@ -1477,6 +1472,8 @@ class P(Prop):
             res = {"pre": pre, "src_pre": src_pre, "first": first, "steps": steps, "src_before": src0, "src_after": self.observe(t),
                    "other_before": other0, "other_after": self.observe(self._t2) if self._t2 is not None else None,
                    "final": self.final_reads(d), "same_object": same}
+            if self._t2 is not None:
+                res["other_pre"] = self._t2_steps
             if case.get("post"):
                 # the source is used again while the derived track is alive
                 res["derived_before_post"] = self.observe(d)
@@ -1505,6 +1502,13 @@ class P(Prop):
     def ckey(case):
         return hashlib.sha1(json.dumps(case, sort_keys=True).encode()).hexdigest()
 
+    @staticmethod
+    def phase_ops(case, which):
+        """the calls of one phase of a case: pre / ops / post, or other_pre = the calls made on the second operand of +"""
+        if which == "other_pre":
+            return case["carry"][2] if case["carry"][0] == "plus" else []
+        return case.get(which) or []
+
     def opaque_vals(self, case, which="ops"):
         """per step: the list returned by the implementation for an opaque operator ([] when it raised / returned junk)"""
         key = self.ckey(case)
@@ -1516,7 +1520,7 @@ class P(Prop):
             self._impl_cache[key] = res
         out = {}
         steps = res.get({"ops": "steps"}.get(which, which)) or []
-        for k, (op, st) in enumerate(zip(case[which], steps)):
+        for k, (op, st) in enumerate(zip(self.phase_ops(case, which), steps)):
             if op[0] in self.OPAQUE:
                 r = st["ret"]
                 ok = st["out"] == "ok" and r != "-" and r[0] == "c" and all(isinstance(v, float) for v in r[1])
@@ -1589,7 +1593,7 @@ class P(Prop):
         return res
 
     def body(self, case, which):
-        ops = case[which]
+        ops = self.phase_ops(case, which)
         ov = self.opaque_vals(case, which) if any(op[0] in self.OPAQUE for op in ops) else {}
         return " ".join(self.op_token(op, ov.get(k)) for k, op in enumerate(ops))
 
@@ -1628,11 +1632,61 @@ class P(Prop):
                         tbl = "%s %s" % (enc_list(names), ";".join(tokl(f["cols"][nm]) for nm in names) if names else "_")
                         b = self.body(case, which)
                         out += ["C01.runi %s %s %s" % (h2, tbl, b), "C01.aruni %s %s %s" % (h2, tbl, b)]
+            out.append(self.world_request(case, res))
             return out
         if not case["ops"]:
             return []
         body = self.body(case, "ops")
         return ["C01.run %s %s" % (head, body), "C01.arun %s %s" % (head, body)]
+
+    # ---- the whole case on the model of the heap (Model/FeaturesWorld.lean): the source track, the second operand of +, the
+    # derivation itself, the calls on the derived track and the calls on the source afterwards, every track observed after every step
+    @staticmethod
+    def carry_token(c):
+        if c[0] in ("copy", "loop"):
+            return "d:" + c[0]
+        if c[0] in ("extract", "slice", "span"):
+            return "d:%s:%d:%d" % (c[0], c[1], c[2])
+        if c[0] == "addcopy":
+            return "d:addcopy:%d:%s" % (c[1], "" if c[2] is None else c[2])
+        return "d:plus:1"
+
+    def world_plan(self, case, res):
+        """[(token, what the reply group is compared with)]: ('pre', k) ('other_pre', k) ('derive',) ('ops', k) ('post', k), None for `on:K`"""
+        c = case["carry"]
+        tb = Tab(case["n"])
+        plan = [("new:" + ":".join(tokl(col) for col in (tb.X, tb.Y, tb.Z, tb.T)), None)]
+        for k, tok in enumerate(self.body(case, "pre").split(" ") if case["pre"] else []):
+            plan.append((tok, ("pre", k)))
+        derived = 0 if c[0] in self.SAME_OBJECT else 1
+        if c[0] == "plus":
+            m = c[1]
+            plan.append(("new:" + ":".join(tokl(col) for col in ([50.0 + i for i in range(m)], [60.0 + 2 * i for i in range(m)],
+                                                                    [70.0 + 3 * i for i in range(m)], [2000.0 + i for i in range(m)])), None))
+            if c[2] and "other_pre" in res:
+                plan.append(("on:1", None))
+                for k, tok in enumerate(self.body(case, "other_pre").split(" ")):
+                    plan.append((tok, ("other_pre", k)))
+                plan.append(("on:0", None))
+            elif c[2]:
+                return plan, derived       # the implementation raised while the second operand was made: nothing further to compare
+            derived = 2
+        plan.append((self.carry_token(c), ("derive",)))
+        if "carry_err" in res:
+            return plan, derived
+        if case["ops"]:
+            plan.append(("on:%d" % derived, None))
+            for k, tok in enumerate(self.body(case, "ops").split(" ")):
+                plan.append((tok, ("ops", k)))
+        if case.get("post") and "post" in res:
+            plan.append(("on:0", None))
+            for k, tok in enumerate(self.body(case, "post").split(" ")):
+                plan.append((tok, ("post", k)))
+        return plan, derived
+
+    def world_request(self, case, res):
+        plan, _ = self.world_plan(case, res)
+        return "C01.world " + " ".join(tok for tok, _ in plan)
 
     @staticmethod
     def parse_block(b):
@@ -1663,9 +1717,13 @@ class P(Prop):
         for r in replies:
             if r == "bad-request":
                 raise ValueError("driver refused the request")
+        world = None
+        if case["kind"] == "carry":
+            world = [[self.parse_block(b) for b in g.split("^")] for g in replies[-1].split(" ")]
+            replies = replies[:-1]
         blocks = [[self.parse_block(b) for b in r.split(" ")] for r in replies]
         if case["kind"] == "carry":
-            out = {"pre": None, "apre": None, "steps": None, "asteps": None, "post": None, "apost": None}
+            out = {"pre": None, "apre": None, "steps": None, "asteps": None, "post": None, "apost": None, "world": world}
             k = 0
             if case["pre"]:
                 out["pre"], out["apre"] = blocks[0], blocks[1]
@@ -1730,6 +1788,72 @@ class P(Prop):
                 return "%sstep %d %s (specification table): %s" % (label, k, op, d)
         return None
 
+    def diff_state(self, si, sm):
+        """two observations of one track (the implementation's, the model's), without outcome"""
+        if sorted(si["names"]) != sorted(sm["names"]):
+            return "names impl=%s model=%s" % (si["names"], sm["names"])
+        for nm in si["names"]:
+            if not close(si["cols"][nm], sm["cols"][nm]):
+                return "column %s impl=%s model=%s" % (nm, si["cols"][nm], sm["cols"][nm])
+        if si["rowlens"] != sm["rowlens"]:
+            return "len(features) impl=%s model=%s" % (si["rowlens"], sm["rowlens"])
+        for c in "XYZT":
+            if not close(si[c], sm[c]):
+                return "%s impl=%s model=%s" % (c, si[c], sm[c])
+        return None
+
+    def compare_world(self, case, impl_out, world):
+        """the model of the heap against the implementation: the track a step is addressed to after every step, and every
+        track (the source, the second operand of +, the derived track) wherever the implementation was observed"""
+        plan, derived = self.world_plan(case, impl_out)
+        groups = [what for _, what in plan if what is not None]
+        # reply groups exist for every step but `on:K`; the `new` steps have no counterpart on the implementation's side
+        steps = [what for tok, what in plan if not tok.startswith("on:")]
+        if world is None or len(world) != len(steps):
+            return "heap model: %d reply groups for %d steps" % (len(world or []), len(steps))
+        c = case["carry"]
+        last_ops = len(case["ops"]) - 1
+        for what, g in zip(steps, world):
+            if what is None:
+                continue
+            if any(b["out"] == "unsupported" for b in g):
+                return None                # outside the model: the rest of the session is not compared
+            ph = what[0]
+            label = "heap model, %s: " % (what,)
+            if ph == "derive":
+                if "carry_err" in impl_out:
+                    return None if g[0]["out"] == impl_out["carry_err"] else label + "outcome impl=%s model=%s" % (impl_out["carry_err"], g[0]["out"])
+                if g[0]["out"] != "ok":
+                    return label + "outcome impl=ok model=%s" % g[0]["out"]
+                pairs = [(0, impl_out["src_before"], "source"), (derived, impl_out["first"], "derived track")]
+                if c[0] == "plus":
+                    pairs.append((1, impl_out["other_before"], "second operand"))
+                for k, si, nm in pairs:
+                    d = self.diff_state(si, g[k]) if k < len(g) else "no such track in the model"
+                    if d:
+                        return label + nm + ": " + d
+                continue
+            k = what[1]
+            trk = {"pre": 0, "other_pre": 1, "ops": derived, "post": 0}[ph]
+            si = impl_out[{"ops": "steps"}.get(ph, ph)][k]
+            op = self.phase_ops(case, ph)[k]
+            d = self.diff_step(op, si, g[trk]) if trk < len(g) else "no such track in the model"
+            if d:
+                return label + "%s: %s" % (op, d)
+            if ph == "ops" and k == last_ops:
+                pairs = [] if c[0] in self.SAME_OBJECT else [(0, impl_out["src_after"], "source afterwards")]
+                if c[0] == "plus":
+                    pairs.append((1, impl_out["other_after"], "second operand afterwards"))
+                for j, sj, nm in pairs:
+                    d = self.diff_state(sj, g[j])
+                    if d:
+                        return label + nm + ": " + d
+            if ph == "post" and k == len(case["post"]) - 1:
+                d = self.diff_state(impl_out["derived_after_post"], g[derived])
+                if d:
+                    return label + "derived track afterwards: " + d
+        return None
+
     def compare(self, case, impl_out, model_out):
         if "err" in impl_out:
             return "implementation harness raised %s" % impl_out
@@ -1745,8 +1869,10 @@ class P(Prop):
                 if d:
                     return d
             if model_out.get("post") is not None:
-                return self.compare_ops(case["post"], impl_out["post"], model_out["post"], model_out["apost"], "source track after the derivation, ")
-            return None
+                d = self.compare_ops(case["post"], impl_out["post"], model_out["post"], model_out["apost"], "source track after the derivation, ")
+                if d:
+                    return d
+            return self.compare_world(case, impl_out, model_out["world"])
         return self.compare_ops(case["ops"], impl_out["steps"], model_out["steps"], model_out["asteps"])
 
     # ---------------------------------------------------------------- oracle (transfer)
